@@ -119,13 +119,25 @@ def _bits(op):
     # pattern can by accident have all its transitions at one parity (seen once in a soak: 10 transitions, all odd),
     # and then only one of the two eye crossings exists at all
     k = 0
-    while True:
+    need_tr = max(4, n // 8)
+    need_lv = max(6, n // 10)
+    while k <= 600:
         tr = np.where(np.diff(b) != 0)[0] + 1
         par = np.bincount(tr % 2, minlength=2)
-        if par.min() >= max(4, n // 8) or k > 400:
+        # both levels must also be present often enough at even and at odd slot positions: the statistics of one
+        # level are taken from the slots of one parity only (a thorough run met 2 marks among the 32 analysed slots)
+        cnt = [int(np.sum(b[p::2] == v)) for p in (0, 1) for v in (0, 1)]
+        if par.min() >= need_tr and min(cnt) >= need_lv:
             break
-        pos = 4 + int(rs.randint(0, n - 6))
-        b[pos] ^= 1                       # adds transitions at pos and pos+1 (one of each parity) or removes them
+        if min(cnt) < need_lv:
+            j = int(np.argmin(cnt))
+            p_, v_ = j // 2, j % 2
+            cand = [i for i in range(4 + ((p_ - 4) % 2), n, 2) if b[i] != v_]
+            if cand:
+                b[cand[int(rs.randint(0, len(cand)))]] = v_
+        else:
+            pos = 4 + int(rs.randint(0, n - 6))
+            b[pos] ^= 1                   # adds transitions at pos and pos+1 (one of each parity) or removes them
         k += 1
     return b
 
